@@ -422,7 +422,10 @@ def gen_case(seed, index, profile=None):
             ctx.balances[("world", ASSETS[0])] = rng.choice([500, -7, 0, BIG])
         for _ in range(rng.randrange(1, 3)):
             a = rng.choice(ACCOUNTS)
-            c = ASSETS[0]
+            c = ASSETS[0] if rng.random() < 0.6 else rng.choice(ASSETS[1:])
+            if getattr(ctx, "origin_account", None) and rng.random() < 0.5:
+                a = ctx.origin_account          # several origins on one account (other asset, other function)
+            ctx.origin_account = a
             if rng.random() < 0.12:
                 # the balance of @world is never requested: it reads as zero whatever the store holds
                 ctx.declare("monetary", ('monetary', c, 0), None, origin="balance(@world, %s)" % c)
@@ -484,7 +487,8 @@ def gen_case(seed, index, profile=None):
             break
         if origin and origin.startswith("balance("):
             a = origin[len("balance(@"):].split(",")[0]
-            b = 0 if a == "world" else ctx.balances.get((a, ASSETS[0]), 0)
+            oc = origin.split(",")[1].strip(" )")
+            b = 0 if a == "world" else ctx.balances.get((a, oc), 0)
             if b < 0:
                 var_error = ("NegativeBalanceError", [a, str(b)])
                 break
